@@ -394,6 +394,29 @@ func runC04(w *World, tier string) (bool, interface{}) {
 	secs := machineSecrets(a)
 	dir := a.Dir
 	pw := a.Password
+	// the running machine's session ends (cmd/airgapped drops the password and the
+	// keys after a while) and somebody types a wrong password, or none, into the SAME
+	// process - which has opened everything with the right one before
+	if a.M != nil && !a.Dead {
+		for k, wp := range [][]byte{nil, []byte("not the password"), append(append([]byte(nil), pw...), '!'), pw[:len(pw)-1]} {
+			a.M.DropSensitiveData()
+			if wp != nil {
+				a.M.SetEncryptionKey(wp)
+			}
+			if err := a.M.LoadKeysFromDB(); err == nil {
+				w.Fail("C04", "private-key-loads-with-wrong-password", fmt.Sprintf("machine %d: after the session of the running machine ended, LoadKeysFromDB succeeded with wrong password #%d (nil = none)", victim, k))
+			}
+			if ks, err := a.M.GetBLSKeyrings(); err == nil && len(ks) > 0 {
+				w.Fail("C04", "bls-shares-load-with-wrong-password", fmt.Sprintf("machine %d: after the session of the running machine ended, GetBLSKeyrings returned %d keyrings with wrong password #%d (nil = none)", victim, len(ks), k))
+			}
+			w.Stats.Probe("wrong-password-after-session-expiry")
+		}
+		a.M.DropSensitiveData()
+		a.M.SetEncryptionKey(pw)
+		if err := a.M.LoadKeysFromDB(); err != nil {
+			w.Fail("C04", "right-password-refused-after-wrong-ones", fmt.Sprintf("machine %d: %v", victim, err))
+		}
+	}
 	a.close()
 	var raw [][]byte
 	files, _ := filepath.Glob(filepath.Join(dir, "*"))
